@@ -2,12 +2,12 @@
 def props(P):
     sim = lambda test, q, th, **kw: P("sim", test, q, th, **kw)
     return {
-        "C01": sim("TestC01", (500, 240), (16, 2500, 1500)),
-        "C03": sim("TestC03", (500, 240), (16, 2500, 1500)),
-        "C04": sim("TestC04", (500, 240), (16, 2500, 1500)),
-        "C05": sim("TestC05", (500, 240), (16, 2500, 1500), regress="TestRegressC05"),
-        "C07": sim("TestC07", (500, 240), (16, 2500, 1500)),
-        "C08": sim("TestC08", (500, 240), (16, 2500, 1500)),
-        "C09": sim("TestC09", (600, 240), (16, 3000, 1500)),
-        "C10": sim("TestC10", (500, 240), (16, 2500, 1500)),
+        "C01": sim("TestC01", (1200, 300), (16, 2500, 1500)),
+        "C03": sim("TestC03", (1200, 300), (16, 2500, 1500)),
+        "C04": sim("TestC04", (1200, 300), (16, 2500, 1500)),
+        "C05": sim("TestC05", (1200, 300), (16, 2500, 1500), regress="TestRegressC05"),
+        "C07": sim("TestC07", (1200, 300), (16, 2500, 1500)),
+        "C08": sim("TestC08", (1200, 300), (16, 2500, 1500)),
+        "C09": sim("TestC09", (1200, 300), (16, 3000, 1500)),
+        "C10": sim("TestC10", (1200, 300), (16, 2500, 1500)),
     }
